@@ -304,14 +304,15 @@ PROPS = {
                 "layout changes. Container/String plans emit a transcript (every length, every element read by get and by iteration, ordered "
                 "Tree iteration, mem results, formatted strings, String contents); its hash and line count must be identical in every "
                 "configuration, and every configuration must also agree with the reference model (a model violation in one configuration is a "
-                "divergence). Exception-tree plans (user-level throw/catch only) must produce the same event trace hash everywhere. quick: 6 "
-                "configurations; thorough: 13.",
+                "divergence). Exception-tree plans (user-level throw/catch only) must produce the same event trace hash everywhere. quick: 7 "
+                "configurations; thorough: 14 (the last one is the clang AddressSanitizer+UBSan build: an in-contract program that reads or "
+                "writes outside its objects is one whose result depends on the build).",
         "rule": "one evaluation = one plan executed under one configuration; non-trivial = the plan created >= 2 containers/strings (containers "
                 "stage) or contains an inner handled exception / throw from a handler (exceptions stage); distinct = distinct trace hashes.",
         "stages": lambda tier: (
             [{"scen": "containers", "env": {"focus": 18, "avoid_kf": AVOID_KF}, "runs": 2500 if tier == "quick" else 40_000, "configs": [c],
-              "differential": True} for c in (["plain", "o0", "ndebug-o2", "nocache-o2", "ngc-o2", "o3"] if tier == "quick" else
-              ["plain", "o0", "o2", "o3", "ndebug-o0", "ndebug-o2", "ndebug-o3", "nocache-o0", "nocache-o2", "nocache-o3", "ngc-o0", "ngc-o2", "ngc-o3"])] +
+              "differential": True} for c in (["plain", "o0", "ndebug-o2", "nocache-o2", "ngc-o2", "o3", "asan"] if tier == "quick" else
+              ["plain", "o0", "o2", "o3", "ndebug-o0", "ndebug-o2", "ndebug-o3", "nocache-o0", "nocache-o2", "nocache-o3", "ngc-o0", "ngc-o2", "ngc-o3", "asan"])] +
             [{"scen": "exc", "env": {"threads": 0, "nolib": 1}, "runs": 2500 if tier == "quick" else 40_000, "configs": [c], "first": 30_000_000, "timeout": 30,
               "differential": True, "diff_keys": ["verdict", "hash"]} for c in (["plain", "ndebug-o2", "nocache-o2", "ngc-o2", "o3"] if tier == "quick" else
               ["plain", "o0", "o2", "o3", "ndebug-o0", "ndebug-o2", "ndebug-o3", "nocache-o0", "nocache-o2", "nocache-o3", "ngc-o0", "ngc-o2", "ngc-o3"])] +
